@@ -664,6 +664,12 @@ func (m *Manager) publishBlockInternal(ctx context.Context) error {
 					m.logger.Info("no batch retrieved from sequencer, skipping block production")
 					return nil
 				}
+				if batchData.Before(lastHeaderTime) {
+					// an empty block with a timestamp before its predecessor's can never validate; building it
+					// would leave it in the store as the pending block of this height for ever
+					m.logger.Warn("skipping block production: empty batch timestamp is before the last block time", "timestamp", batchData.Time, "lastBlockTime", lastHeaderTime)
+					return nil
+				}
 				m.logger.Info("creating empty block, height: ", newHeight)
 			} else {
 				m.logger.Warn("failed to get transactions from batch", "error", err)
